@@ -34,6 +34,13 @@ func genC03(seed uint64, tier string) *plan.Plan {
 		p.Cluster.TableSize = 256
 		p.Cluster.BalancerMs = 500
 	}
+	if r.Bool(150) {
+		// janitor variant: empty fragments are looked for every 1-3 ms while tables arrive and keys
+		// are deleted, with many short pauses at the scheduling points (function entries, clock
+		// reads, lock acquisitions)
+		p.Cluster.JanitorMs = r.Range(1, 3)
+		p.Yield = plan.YieldSpec{ArmPermille: 700, ParkPermille: 500, MaxUs: int64(Pick(r, 200, 600, 1500))}
+	}
 	nkeys := r.Range(20, 120)
 	nwriters := r.Range(1, 3)
 	bound := int64(60000 + 13000*p.Cluster.Partitions)
